@@ -405,6 +405,7 @@ func checkC07(c *Ctx) {
 	if ab := c.Fn("K", "efi/signature.(*SignatureList).AppendBytes"); ab != nil {
 		c.ruleUniformSize(ab)
 		c.sameDataChecked(ab)
+		c.sha256Len(ab)
 	}
 	c.ruleNoAlias("G9.copy")
 	c.ruleDecodeReplaces("G14.replace", func(f *ssa.Function) bool { return strings.Contains(name(f), "efi/signature.") })
@@ -518,6 +519,36 @@ func checkC08(c *Ctx) {
 	c.eofProvenance(db, rl)
 	c.ruleEOFNotSuccess("G4.eofok", rl, db)
 	c.R.Floor("G4.eofok", 1)
+	// the clean end of the database is the end of the caller's stream: a bounded view
+	// (io.LimitReader) in between ends "cleanly" wherever its limit falls on a list boundary
+	{
+		bad := ""
+		instrsOf(db, func(i ssa.Instruction) {
+			call, ok := i.(*ssa.Call)
+			if !ok {
+				return
+			}
+			callee := ir.Callee(call)
+			if callee == nil || !c.readCone()[callee] {
+				return
+			}
+			for _, a := range ir.CallArgs(call) {
+				if !isStreamType(ir.StripIface(a).Type()) && !isIfaceType(a.Type()) {
+					continue
+				}
+				for v := range c.sliceOf(a) {
+					if lc, isC := v.(*ssa.Call); isC && (ir.CallID(lc) == "io.LimitReader" || ir.CallID(lc) == "io.NewSectionReader") {
+						bad = c.IPos(lc)
+					}
+					if fa, isFA := v.(*ssa.FieldAddr); isFA && ir.FieldID(fa) == "io.LimitedReader.N" {
+						bad = c.IPos(fa)
+					}
+				}
+			}
+		})
+		c.R.Check(bad == "", "G4.limit", name(db), "unbounded-view", c.Pos(db.Pos()), "the list decoder reads from the caller's stream itself, not from a bounded view of it",
+			"the stream handed to the list decoder is bounded at "+bad+": when the bound falls on a list boundary the decoder sees a clean end, and the lists (or garbage) behind it are dropped without an error")
+	}
 	c.usedResults("G2.kept", db, rl)
 	c.scopeGuard("scope", len(scope), 4, "library functions reachable from the database decoder")
 	c.R.Floor("A-d.known-type", 1)
